@@ -10,6 +10,7 @@ import Driver.C10Mon
 import Driver.C10
 import Driver.C15
 import Driver.C06Mon
+import Driver.C06
 import Driver.C17
 import Driver.C03
 import Driver.C18
@@ -45,7 +46,7 @@ def dispatch (st : DState) (prop : String) (l : Line) : DState × String :=
   | "C08" => let (s, r) := Drv.C08.step st.c08 l; ({ st with c08 := s }, r)
   | "C10" => (st, Drv.C10.stepModel l)
   | "C15" => (st, Drv.C15.step l)
-  | "C06" => (st, Drv.C06.step l)
+  | "C06" => (st, Drv.C06.stepModel l)
   | "C17" => let (s, r) := Drv.C17.step st.c17 l; ({ st with c17 := s }, r)
   | "C03" => let (s, r) := Drv.C03.step st.c03 l; ({ st with c03 := s }, r)
   | "C18" => (st, Drv.C18.step l)
